@@ -53,7 +53,8 @@ type Contract struct {
 	Trusted    bool // contract is assumed; body not verified
 	Abstract   bool // interface method / func type: no body
 	Constructs bool // guard checks off (object under construction)
-	Emits      []string
+	Emits      []string // events appended to the effect log (normal and panicking outcome)
+	EmitsOK    []string // events appended on normal return only (may mention results)
 	Overflow   bool
 	Pure       bool
 	Unfold     []string
@@ -90,9 +91,11 @@ type GhostVar struct {
 }
 
 type GhostFun struct {
-	Name string
-	Args []string
-	Ret  string
+	Name   string
+	Args   []string
+	Ret    string
+	GoType string // optional Go type of the result ("Ref as *PID"), resolved in Pkg
+	Pkg    string
 }
 
 type ContractFile struct {
@@ -125,7 +128,7 @@ var clauseKW = map[string]bool{
 	"props": true, "requires": true, "ensures": true, "ensures_panic": true, "nopanic": true,
 	"maypanic": true, "modifies": true, "loop": true, "invariant": true, "decreases": true,
 	"inline": true, "trusted": true, "abstract": true, "constructs": true, "ghost": true, "atunlock": true,
-	"overflow": true, "pure": true, "assume": true, "unfold": true, "emits": true,
+	"overflow": true, "pure": true, "assume": true, "unfold": true, "emits": true, "emits_ok": true,
 	"var": true, "hyp": true, "concl": true,
 }
 
@@ -355,7 +358,11 @@ func ParseContracts(pkgPath, path, src string) (*ContractFile, error) {
 				r := strings.TrimSpace(rest[5:])
 				k := strings.Index(r, "(")
 				k2 := strings.Index(r, ")")
-				gf := &GhostFun{Name: strings.TrimSpace(r[:k]), Args: splitComma(r[k+1 : k2]), Ret: strings.TrimSpace(r[k2+1:])}
+				gf := &GhostFun{Name: strings.TrimSpace(r[:k]), Args: splitComma(r[k+1 : k2]), Ret: strings.TrimSpace(r[k2+1:]), Pkg: pkgPath}
+				if j := strings.Index(gf.Ret, " as "); j >= 0 {
+					gf.GoType = strings.TrimSpace(gf.Ret[j+4:])
+					gf.Ret = strings.TrimSpace(gf.Ret[:j])
+				}
 				cf.GhostFuns = append(cf.GhostFuns, gf)
 				continue
 			}
